@@ -12,6 +12,8 @@
 (*        messages of clients that hold nothing, on a pool with `free`      *)
 (*        blocks; flags[k]: IA_PD k got a prefix                            *)
 (*  swap {held}              the static table was swapped                   *)
+(*  refreshed {proto, ok}    after a burst: a last well-formed update of    *)
+(*        that protocol's lease file was being served within 20 s          *)
 (* A process that died ("crash") has no action.                             *)
 (***************************************************************************)
 EXTENDS Integers, FiniteSets, Sequences, TLC, Json
@@ -45,6 +47,11 @@ TraceSwap ==
   /\ IsEvent("swap")
   /\ ("DISC" \in Lens) => Trace[l].held               \* lock discipline of the present design (drift detector only)
 
+\* C16 (through C10): the static mapping keeps holding while the lease file is being refreshed under load
+TraceRefreshed ==
+  /\ IsEvent("refreshed")
+  /\ ("C16" \in Lens) => Trace[l].ok
+
 (* serial runs of a batch of DHCPv6 messages: message after message gets     *)
 (* its blocks while they last ("any": what the client holds, else a new      *)
 (* block; "new": always a new block)                                          *)
@@ -74,7 +81,7 @@ TraceBatch ==
 TraceNote == IsEvent("note")
 
 TraceInit == l = 1
-TraceNext == TraceChain \/ TraceDg \/ TraceProbe \/ TraceSwap \/ TraceBatch \/ TraceNote
+TraceNext == TraceChain \/ TraceDg \/ TraceProbe \/ TraceSwap \/ TraceRefreshed \/ TraceBatch \/ TraceNote
 TraceSpec == TraceInit /\ [][TraceNext]_tvars
 
 TraceAccepted ==
